@@ -4,7 +4,6 @@ package main
 // both chains after the re-import, and the Coq / JSON emission.
 
 import (
-	"crypto/sha256"
 	"fmt"
 	"os"
 	"sort"
@@ -318,22 +317,17 @@ func RunProbes(a, b *abci.Chain, f Features, heightShifted bool) []Probe {
 			return fmt.Sprintf("%s %s end=%q pending=%d", r1, r2, e.Panic, len(c.App.MultiStakingKeeper.GetAllUndelegations(ctxOf(c))))
 		})
 	}
-	both("query:account-balances", func(c *abci.Chain) string {
-		if heightShifted {
-			// block rewards depend on the height through the validator-performance window (votes older
-			// than SnapPeriod blocks expire): not comparable between chains at different heights
-			return "n/a"
-		}
-		var xs []string
-		for i := range c.Accounts {
-			xs = append(xs, c.App.BankKeeper.GetAllBalances(ctxOf(c), A(c, i)).String())
-		}
-		if os.Getenv("C12_DEBUG") != "" {
-			return strings.Join(xs, "|")
-		}
-		h := sha256.Sum256([]byte(strings.Join(xs, "|")))
-		return fmt.Sprintf("%x", h[:8])
-	})
+	for i := range a.Accounts {
+		i := i
+		both(fmt.Sprintf("query:balance:a%d", i), func(c *abci.Chain) string {
+			if heightShifted {
+				// block rewards depend on the height through the validator-performance window (votes older
+				// than SnapPeriod blocks expire): not comparable between chains at different heights
+				return "n/a"
+			}
+			return c.App.BankKeeper.GetAllBalances(ctxOf(c), A(c, i)).String()
+		})
+	}
 	both("query:data-registry-keys", func(c *abci.Chain) string {
 		return fmt.Sprint(len(c.App.CustomGovKeeper.AllDataRegistry(ctxOf(c))))
 	})
